@@ -8,6 +8,11 @@ for d in sorted(glob.glob(os.path.join(VERIF, "seeded", "C*"))):
     sid = os.path.basename(d)
     prop = sid.split("-")[0]
     old = json.load(open(os.path.join(d, "meta.json"))) if os.path.exists(os.path.join(d, "meta.json")) else {}
+    if old.get("neutralised_by"):
+        # a repair of the library removed what this change relied on (it no longer applies, or no longer breaks anything): kept for the record
+        rows.append((sid, prop, "neutralised by " + old["neutralised_by"], "-", old.get("disposition") or "", ""))
+        print(rows[-1][:4], flush=True)
+        continue
     checks = sorted(set([prop] + list(old.get("also_checks", []))))
     r = subprocess.run([os.path.join(VERIF, "tools", "seedcheck.py"), d, prop, sid, "--keep", "--checks", ",".join(checks)], capture_output=True, text=True)
     try:
@@ -32,4 +37,4 @@ with open(os.path.join(VERIF, "seeded", "RESULTS.md"), "w") as f:
     f.write("# Seeded changes re-run against the current quick checks (tools/reseed_all.py)\n\n| seed | property | seed valid | verdicts | disposition | first witness |\n|---|---|---|---|---|---|\n")
     for r in rows:
         f.write("| " + " | ".join(str(x) for x in r) + " |\n")
-print("%d seeds; not caught by own check: %s" % (len(rows), [r[0] for r in rows if "caught" not in r[3].split(",")[0]]))
+print("%d seeds; not caught by own check: %s" % (len(rows), [r[0] for r in rows if not r[2].startswith("neutralised") and "caught" not in r[3].split(",")[0]]))
